@@ -53,6 +53,17 @@ const ERROR: &str = "[Error]";
 static GENERATED_PATHS: LazyLock<Mutex<HashSet<PathBuf>>> =
     LazyLock::new(|| Mutex::new(HashSet::new()));
 
+/// Removes the file at the given path if dropped while the thread is panicking.
+struct RemoveOnPanic<'a>(&'a Path);
+
+impl Drop for RemoveOnPanic<'_> {
+    fn drop(&mut self) {
+        if std::thread::panicking() {
+            fs::remove_file(self.0).ok();
+        }
+    }
+}
+
 struct CTConflictsError<StorageT: Eq + Hash> {
     conflicts_diagnostic: String,
     #[cfg(test)]
@@ -670,6 +681,9 @@ where
             }
             lk.insert(outp.clone());
         }
+        // Output from an earlier build must not survive a build that panics (e.g. because `StorageT`
+        // is not big enough) either.
+        let _guard = RemoveOnPanic(&outp);
         let r = self.build_inner();
         if r.is_err() {
             // Whatever went wrong (including errors detected before we decide whether to
